@@ -313,6 +313,8 @@ pub fn run_compile(proj: &str, options: &str, files_hex: &str, expected: &str) -
         Ok(None) => ("bad-case".to_string(), None),
         Err(_) => ("panic".to_string(), Some("the compiler panicked".to_string())),
     };
+    // a projection may carry the verdict of its property's own predicate on the implementation's output (` oracle=FAIL(<reason>)`)
+    let oracle = oracle.or_else(|| actual.split_once(" oracle=FAIL(").map(|(_, r)| format!("the property's predicate fails on the implementation's output: {}", r.trim_end_matches(')'))));
     let diff = if actual != expected { Some(crate::compile::short_diff(expected, &actual)) } else { None };
     CaseResult { nontrivial: actual.len() > 40 || actual.contains(','), actual, diff, oracle }
 }
